@@ -11,7 +11,7 @@
      parser, whatever the wrapped ansi parser answers.
    Outside: every drawing primitive beyond put_pixel / bar_rect, fonts, buttons, icons, flood fill, all of IGS (search stage only). *)
 From Coq Require Import NArith ZArith List Bool.
-From IE Require Import Gen.RipGen Gen.RipLineGen Gen.IgsGen Model.IgsTok Model.IgsKernel Proofs.IgsTokProofs Proofs.IgsKernelProofs Model.RipTok Model.BgiKernel Model.RipStream Model.BgiLine Model.RipStream2
+From IE Require Import Gen.RipGen Gen.RipLineGen Gen.IgsGen Model.IgsTok Model.IgsKernel Model.IgsLine Proofs.IgsTokProofs Proofs.IgsKernelProofs Proofs.IgsLineProofs Model.RipTok Model.BgiKernel Model.RipStream Model.BgiLine Model.RipStream2
                        Proofs.RipTokProofs Proofs.BgiProofs Proofs.RipStreamProofs Proofs.RipVecProofs Proofs.BgiLineProofs Proofs.RipStream2Proofs.
 Import ListNotations.
 Local Open Scope Z_scope.
@@ -395,3 +395,54 @@ Proof. exact (conj ipars_new_inv iexec_new_inv). Qed.
 (* the checked sites fire when their guards are missing: parsed_numbers[4] of a four-element vector *)
 Example igs_nums4_panics : idx SITE_IGS_NUMS [0; 3; 1; 0] 4 = Panic SITE_IGS_NUMS.
 Proof. reflexivity. Qed.
+
+(* ================================================================================================================= *)
+(* Extension 3b: IGS draw_line (Model/IgsLine.v), an UNCLIPPED Bresenham, and the commands DrawLine, LineDrawTo,
+   LineMarkerTypes.                                                                                                   *)
+
+(* draw_line for ALL arguments: it ends at (x1, y1) — the model's fuel dx + dy + 1 always suffices — after at least
+   max(dx, dy) + 1 loop iterations (one set_pixel slot each), whatever part of the line is on the screen: the work is
+   proportional to the COORDINATES, not to the canvas (known finding igs-timeout:L); the only panics are LINE_STYLE[6]
+   (LineType::UserDefined) and an i32 overflow that needs an end point beyond +-2^27 (known finding igs-panic:draw_line) *)
+Theorem igs_draw_line_total : forall e x0 y0 x1 y1 color mask, InvE e -> (color < 16)%N ->
+  match igs_draw_line e x0 y0 x1 y1 color mask with
+  | Ok (e', n) => SameE e e' /\ Z.max (Z.abs (x0 - x1)) (Z.abs (y0 - y1)) + 1 <= n <= Z.abs (x0 - x1) + Z.abs (y0 - y1) + 1
+  | Panic p => (p = SITE_IGS_LINESTYLE /\ ~ (0 <= mask <= 5)) \/ (p = SITE_I32 /\ ~ DlSmall x0 y0 x1 y1)
+  end.
+Proof. exact igs_draw_line_post. Qed.
+
+(* KNOWN igs-timeout:L as a theorem: on the 320 x 200 canvas a horizontal line to x = D costs at least D + 1 iterations, for every D up to 2^27 *)
+Theorem igs_draw_line_stall_witness : forall D, 0 <= D <= DLH ->
+  exists e' n, igs_draw_line iexec_new 0 0 D 0 0%N 0 = Ok (e', n) /\ D + 1 <= n.
+Proof. exact igs_draw_line_stall. Qed.
+
+Theorem igs_kernel2_safe : forall s c ps str_, InvE2 s ->
+  match igs_exec2 s c ps str_ with
+  | XOk2 s' _ => InvE2 s'
+  | XPanic2 p => ((c = 76 \/ c = 68)%N) /\
+                 ((p = SITE_IGS_LINESTYLE /\ x_line_type s = 6) \/
+                  (p = SITE_I32 /\ ~ (Forall (fun v => Z.abs v <= DLH) ps /\ Z.abs (x_cur_x s) <= DLH /\ Z.abs (x_cur_y s) <= DLH)))
+  | XUnmodelled2 => True
+  end.
+Proof. exact igs_exec2_ok. Qed.
+
+Theorem igs_stream_kernel2_safe : forall (FS : Type) (fb_print : FS -> N -> FS * bool) (fs : FS) (es : list event),
+  match igs_run xstate2 igs_x2 FS fb_print (igs_world_init2 FS fs) es with
+  | Ok w' => IgsInv (w_p xstate2 FS w') /\
+             match w_x xstate2 FS w' with
+             | SOkE2 s => InvE2 s /\ exists px, igs_picture (x_e s) = Ok px /\ Z.of_nat (length px) = 4 * (e_w (x_e s) * e_h (x_e s))
+             | SPanicE2 p => p = SITE_IGS_LINESTYLE \/ p = SITE_I32
+             | SUnmodelledE2 => True
+             end
+  | Panic s => s = SITE_IGS_LOOP_ARITH
+  end.
+Proof. exact igs_stream_kernel2_lemma. Qed.
+
+(* "G#L 0,0,4,2:" : five loop iterations; "G#T 2,7,1:L 0,0,5,5:" : the user-defined line type indexes LINE_STYLE[6] *)
+Example igs_line_draws : match igs_draw_line iexec_new 0 0 4 2 3%N 0 with
+                         | Ok (e', n) => n = 5 /\ map (fun i => nth_error (e_screen e') i) [0; 1; 321; 322; 323; 643; 644]%nat
+                                                  = [Some 3; Some 3; Some 1; Some 3; Some 3; Some 1; Some 3]%N
+                         | Panic _ => False end.
+Proof. vm_compute. auto. Qed.
+Example igs_user_line_type_panics : exists n, igs_draw_line iexec_new 0 0 5 5 0%N 6 = Panic n /\ n = SITE_IGS_LINESTYLE.
+Proof. eexists. split; reflexivity. Qed.
